@@ -55,7 +55,7 @@ Proof. exact xserialize_ok_iff. Qed.
 Print Assumptions C11_accepts_iff_uniform.
 
 (* the name-level criterion `uniform` (one rank, one dtype NAME) is the acceptance
-   criterion only under an explicit hypothesis: numeric elements in native byte order *)
+   criterion only under an explicit premise: numeric elements in native byte order *)
 Theorem C11_accepts_native : forall vals miss,
   forallb native_numeric vals = true ->
   ((exists r, xserialize vals miss = Ok r) <-> uniform (map forget vals)).
@@ -321,6 +321,8 @@ Example C11_nonvacuous_x :
   let u1 := {| x_base := DStr; x_swap := false; x_width := 1 |} in
   let u3 := {| x_base := DStr; x_swap := false; x_width := 3 |} in
   let arr d sh fl := {| xv_dt := d; xv_shape := sh; xv_flat := fl |} in
+  forallb native_numeric [arr le [2] [1; 2]%Z; arr (native DI8) [1] [3]%Z] = true /\
+  uniform (map forget [arr le [2] [1; 2]%Z; arr le [1] [3]%Z]) /\
   xserialize [arr be [2] [1; 2]%Z; arr le [1] [3]%Z] None = Err ValueError /\
   xserialize [arr u1 [1] [7]%Z; arr u3 [1] [8]%Z] None = Err ValueError /\
   xserialize [arr be [2] [1; 2]%Z; arr be [1] [3]%Z] (Some [false; true]) =
@@ -335,7 +337,7 @@ Example C11_nonvacuous_x :
   xpipeline [Some (arr be [2] [1; 2]%Z); None; Some (arr (native DF16) [] [512]%Z)] =
     Ok ([arr (native DF64) [2] [1024; 2048]%Z; arr (native DF64) [0] []; arr (native DF64) [1] [512]%Z],
         Some [false; true; false]).
-Proof. cbv zeta. repeat split; vm_compute; reflexivity. Qed.
+Proof. cbv zeta. repeat split; try (vm_compute; reflexivity). repeat constructor. Qed.
 
 (* non-vacuity of the exactness statements: the side condition holds for an int64 next
    to a float16 below 2^53 (exact) and fails for 2^53+1 (rounded) *)
